@@ -287,7 +287,10 @@ func (g *histGen) genBind(portal, stmt string) pgwire.FMsg {
 		if i < len(declared) && declared[i] != 0 {
 			oidv = declared[i]
 		}
+		large := r.Large
+		r.Large = false
 		v := genVal(r, oidv).Canon(oidv)
+		r.Large = large
 		enc, err := pgwire.Encode(oidv, pf[i], v)
 		if err != nil {
 			enc = []byte("x")
@@ -457,6 +460,26 @@ func (g *histGen) unit() {
 				g.add(ms...)
 			}},
 		)
+		if g.o.errs {
+			cs = append(cs, choice{1, func() {
+				// a name is parsed, then parsed again with a text the parser rejects:
+				// the earlier definition must keep resolving
+				k1, k2 := g.newKey(), g.newKey()
+				g.c.Programs[k1] = &Program{Stmts: []*StmtProg{g.genStmt(true)}}
+				g.c.Programs[k2] = &Program{ParseErr: g.err()}
+				sn := g.name(nil, "s")
+				g.add(pgwire.FMsg{K: "P", S1: sn, S2: k1}, pgwire.FMsg{K: "P", S1: sn, S2: k2}, pgwire.FMsg{K: "S"})
+				if g.stop {
+					return
+				}
+				// (the Bind is drawn only now, against the definition that is current)
+				if r.Bool() {
+					g.add(pgwire.FMsg{K: "D", Sub: 'S', S1: sn}, pgwire.FMsg{K: "S"})
+				} else {
+					g.add(g.genBind(g.name(nil, "p"), sn), pgwire.FMsg{K: "S"})
+				}
+			}})
+		}
 		if g.o.params {
 			cs = append(cs, choice{1, func() {
 				// a statement whose parameters come from ParseParameters(query): gaps,
@@ -615,6 +638,15 @@ func genHistory(r *Rand, c *Case, o histOpts) {
 			}
 			steps = append(steps, Step{Msgs: rest[i : i+n]})
 			i += n
+		}
+	}
+	if r.Chance(1, 16) {
+		// a slow client: simulated time passes between some steps (the server
+		// sets no time limits, so nothing may change)
+		for i := range steps {
+			if r.Chance(1, 3) {
+				steps[i].IdleMs = r.PickInt(50, 11000, 61000, 3600000)
+			}
 		}
 	}
 	if o.prefix != "" {
